@@ -80,8 +80,14 @@ impl Router {
         use std::panic::AssertUnwindSafe;
 
         while let Some(message) = self.next_event(&receiver) {
+            #[cfg(feature = "verif-hooks")]
+            let mut panicked = false;
             let shutdown = panic::catch_unwind(AssertUnwindSafe(|| self.handle_message(message)))
                 .unwrap_or_else(|err| {
+                    #[cfg(feature = "verif-hooks")]
+                    {
+                        panicked = true;
+                    }
                     let error_message = if let Some(string) = err.downcast_ref::<&str>() {
                         format!("Panic occurred with message: {}", string)
                     } else if let Some(string) = err.downcast_ref::<String>() {
@@ -92,6 +98,9 @@ impl Router {
                     error!("Panic message: {}", error_message);
                     false
                 });
+
+            #[cfg(feature = "verif-hooks")]
+            crate::hooks::emit(crate::hooks::Event::LoopHandled { panicked });
 
             if shutdown {
                 return Ok(());
@@ -105,6 +114,16 @@ impl Router {
             Message::Request(req) => {
                 let request = req;
                 let self_clone = self.clone();
+                #[cfg(feature = "verif-hooks")]
+                {
+                    // same spawn as below, but the JoinHandle is handed to the sink instead of
+                    // being dropped, so a harness can learn (without timeouts) that a worker is gone
+                    let id = request.id.to_string();
+                    let handle = std::thread::spawn(move || self_clone.on_request(request));
+                    crate::hooks::emit(crate::hooks::Event::WorkerSpawned { id, handle });
+                    return false;
+                }
+                #[allow(unreachable_code)]
                 let _ = std::thread::spawn(move || self_clone.on_request(request));
                 false
             }
@@ -140,6 +159,13 @@ impl Router {
     }
 
     fn on_request(&self, request: Request) -> bool {
+        #[cfg(feature = "verif-hooks")]
+        let hook_id = request.id.to_string();
+        #[cfg(feature = "verif-hooks")]
+        crate::hooks::emit(crate::hooks::Event::WorkerStart {
+            id: hook_id.clone(),
+        });
+
         if request.method == "shutdown" {
             self.respond(Response {
                 id: request.id.clone(),
@@ -162,6 +188,11 @@ impl Router {
 
             return false;
         }
+
+        #[cfg(feature = "verif-hooks")]
+        crate::hooks::emit(crate::hooks::Event::WorkerComputing {
+            id: hook_id.clone(),
+        });
 
         let response = match request.method.as_str() {
             "textDocument/inlayHint" => InlayHintParams::deserialize(request.params)
@@ -213,6 +244,11 @@ impl Router {
 
         // schedule update
 
+        #[cfg(feature = "verif-hooks")]
+        crate::hooks::emit(crate::hooks::Event::WorkerComputed {
+            id: hook_id.clone(),
+        });
+
         match response {
             Ok(value) => self.respond(Response {
                 id: request.id,
@@ -225,6 +261,9 @@ impl Router {
                 "error handling request".to_string(),
             )),
         }
+
+        #[cfg(feature = "verif-hooks")]
+        crate::hooks::emit(crate::hooks::Event::WorkerResponded { id: hook_id });
 
         false
     }
